@@ -108,7 +108,32 @@ def malformed(rng, n):
         yield gen822.random_text(rng, 14)
 
 
+MIME_NAMES = ['Package', 'Maintainer', 'Description', 'Content-Type', 'Content-Transfer-Encoding', 'MIME-Version', 'Subject', 'From', 'To',
+              'Date', 'Content-Disposition', 'Message-ID', 'Received', 'Resent-From', 'Content-Length', 'Lines']
+MIME_VALUES = ['=?utf-8?q?Jos=C3=A9?= <j@example.org>', '=?bogus?q?Jose?= <j@example.org>', '=?utf-8?b?a?=', '=?utf-8?q?Jos=E9?=', '=?utf-8?x?abc?=',
+               '=?', '=?utf-8?q?', '=?utf-8?b?////?=', '=?utf-16?b?AAA=?=', '=?iso-8859-1?q?a=ZZ?= =?utf-8?q?b?=', '=?unknown-8bit?q?=FF?=', '=??q?x?=',
+               'multipart/mixed; boundary=b', 'multipart/mixed', 'message/rfc822', 'message/partial; id=1; number=1; total=2', 'text/plain; charset=bogus',
+               "text/plain; name*=utf-8''%e2%82%ac", "text/plain; name*0*=bogus''%ff; name*1=x", 'text/plain; charset="unterminated', 'base64', 'quoted-printable',
+               'x-uuencode', '7bit', '8bit', '1.0', 'attachment; filename="a b"', '<a@b>', 'a@b (comment (nested', '"unterminated <x@y>', 'x' * 1200,
+               'Mon, 32 Foo 9999 99:99:99 +9999', '-1', '99999999999999999999', 'é ü', '\udcff'.encode('utf-8', 'surrogatepass').decode('utf-8', 'replace'), '']
+MIME_BODIES = ['', '\n', '\n--b\n\nx\n--b--\n', '\nbody text\n', '\n--b\nContent-Type: message/rfc822\n\nA: b\n\n--b--\n', '\nQUJD\n', '\n=E9=\n', '\nbegin 644 x\n#86)C\n`\nend\n']
+
+
+def mime_family(rng, n):
+    """MIME-looking paragraphs: header names and values that an e-mail parser treats specially"""
+    for v in MIME_VALUES:
+        for nm in MIME_NAMES:
+            yield '%s: %s\n' % (nm, v)
+    for _ in range(n):
+        k = rng.randint(1, 4)
+        lines = ['%s: %s' % (rng.choice(MIME_NAMES), rng.choice(MIME_VALUES)) for _ in range(k)]
+        if rng.random() < 0.3:
+            lines.insert(rng.randrange(len(lines) + 1), ' ' + rng.choice(MIME_VALUES))
+        yield '\n'.join(lines) + '\n' + rng.choice(MIME_BODIES)
+
+
 def streams(tier, rng):
+    yield {'name': 'mime-looking', 'op': 'C07', 'cases': mime_family(rng, 1500 if tier == 'quick' else 30000)}
     L = 3 if tier == 'quick' else 4
     yield {'name': 'exhaustive-lines<=%d' % L, 'op': 'C07', 'cases': gen822.exhaustive(L), 'exhaustive': True}
     yield {'name': 'name-clash-family', 'op': 'C07', 'cases': clash_family(3 if tier == 'quick' else 4), 'exhaustive': True}
